@@ -10,7 +10,10 @@ Vals == {Nil, Bool(TRUE), IntV(0), IntV(-1), IntV(-5), IntV(1000000), Str(""), S
          Arr(<<Arr(<<Arr(<<Arr(<<Arr(<<Arr(<<IntV(1)>>)>>)>>)>>)>>)>>),
          Hash(<< <<"a", IntV(1)>> >>), Arr(<<Hash(<< <<"a", IntV(1)>> >>), Hash(<< <<"b", Str("x")>> >>), IntV(3)>>), Range(1, 3),
          Flt("nan"), Flt("inf"), Flt("-inf"), Flt("1.5"), Flt("-0.0"), Flt("1e308"), BigInt("123456789012345678901234567890"),
-         BigInt("-9223372036854775809"), Arr(<<Flt("nan"), IntV(1), Str("a")>>)}
+         BigInt("-9223372036854775809"), Arr(<<Flt("nan"), IntV(1), Str("a")>>),
+         \* an integer beyond the 4300 digits CPython converts to text without being asked (the harness writes HUGE as 10^5000),
+         \* 2^62 as number and as text (a time stamp the C library refuses), a range bound that outlasts any loop
+         BigInt("HUGE"), BigInt("-HUGE"), BigInt("4611686018427387904"), Str("4611686018427387904"), IntV(100000000)}
 MCData == {<< <<<<"x", vx>>, <<"y", vy>>>>, <<>>, <<>>, <<>> >> : vx \in Vals, vy \in {Nil, IntV(-2), Str("abc"), Str("inf"), Arr(<<IntV(1)>>), Hash(<< <<"a", IntV(1)>> >>), Flt("nan"), Flt("inf"),
                                                                          BigInt("123456789012345678901234567890")}}
 MCCfgs == {Cfg("+", TRUE, FALSE, "default"), Cfg("+", TRUE, TRUE, "strict")}
@@ -28,6 +31,9 @@ Filters1 == {"plus", "minus", "times", "divided_by", "modulo", "at_least", "at_m
              "truncate", "truncatewords", "slice", "concat", "map", "where", "reject", "find", "find_index", "has",
              "sort", "sort_natural", "sort_numeric", "sum", "uniq", "compact", "default", "date", "json", "t",
              "ngettext", "pgettext", "npgettext", "gettext", "datetime", "decimal", "unit", "currency"}
+KwFilters == {<<"datetime", "format">>, <<"datetime", "input_format">>, <<"decimal", "group_separator">>, <<"decimal", "format">>,
+              <<"currency", "group_separator">>, <<"currency", "currency_code">>, <<"default", "allow_false">>, <<"t", "v">>, <<"t", "count">>,
+              <<"money", "group_separator">>, <<"date", "format">>, <<"json", "indent">>, <<"sort", "key">>}
 MCPool == {NOut(F(X, <<Fl(f, <<>>)>>)) : f \in Filters0}
           \cup {NOut(F(X, <<Fl(f, <<Y>>)>>)) : f \in Filters1}
           \cup {NOut(F(Y, <<Fl(f, <<X>>)>>)) : f \in Filters1}
@@ -43,6 +49,19 @@ MCPool == {NOut(F(X, <<Fl(f, <<>>)>>)) : f \in Filters0}
                 If(In(X, Y), <<NText("t")>>, <<>>, NoElse), NOut(P([k |-> "var", segs |-> <<[t |-> "k", v |-> "x"], [t |-> "p", p |-> <<[t |-> "k", v |-> "y"]>>]>>])),
                 NOut(P(VI("x", -1))), NOut(P(VI("x", 99))), NOut(P(VP("x", "size"))), NOut(P(VP("x", "first"))), NOut(P(VP("x", "last"))),
                 Assign("z", F(X, <<Fl("times", <<Y>>)>>)), NOut(P([k |-> "tstr", parts |-> <<S("a"), P(X), S("b"), F(Y, <<Fl("upcase", <<>>)>>)>>, q |-> "\""])),
-                With(<<WArg("w", X)>>, <<NOut(P(VP("w", "a")))>>), Call("nomacro", <<X>>, <<>>)}
+                With(<<WArg("w", X)>>, <<NOut(P(VP("w", "a")))>>), Call("nomacro", <<X>>, <<>>),
+                \* ranges up to the value: their length, their ends, membership of a non-integer, partials once per item
+                With(<<WArg("r", RangeE(I(1), X))>>, <<NOut(P(VP("r", "size"))), NOut(P(VP("r", "first"))), NOut(P(VP("r", "last")))>>),
+                With(<<WArg("r", RangeE(X, Y))>>, <<NOut(P(VP("r", "size")))>>),
+                If(Contains(RangeE(I(1), X), FloatE("1.5", 15, 1)), <<NText("t")>>, <<>>, NoElse),
+                If(Contains(RangeE(I(1), X), S("a")), <<NText("t")>>, <<>>, NoElse), If(Contains(RangeE(I(1), X), Y), <<NText("t")>>, <<>>, NoElse),
+                If(In(FloatE("1.5", 15, 1), RangeE(I(1), X)), <<NText("t")>>, <<>>, NoElse),
+                Include(S("p"), "for", RangeE(I(1), X), "", <<>>), RenderT(S("p"), "for", RangeE(I(1), X), "", <<>>),
+                For("i", RangeE(I(1), X), "(1..x)", Opt(I(2)), NoOpt, FALSE, <<NOut(P(V("i")))>>, NoElse),
+                NOut(F(RangeE(I(1), X), <<Fl("first", <<>>)>>)), NOut(F(RangeE(I(1), X), <<Fl("size", <<>>)>>))}
+          \* keyword arguments of the filters that take them
+          \cup {NOut(F(X, <<Fk(fk[1], <<>>, <<WArg(fk[2], Y)>>)>>)) : fk \in KwFilters} \cup {NOut(F(Y, <<Fk(fk[1], <<>>, <<WArg(fk[2], X)>>)>>)) : fk \in KwFilters}
+          \cup {NOut(F(X, <<Fk("unit", <<S("length-meter")>>, <<WArg(k, Y)>>)>>)) : k \in {"denominator", "denominator_unit", "length", "format"}}
+          \cup {NOut(F(Y, <<Fk("unit", <<S("length-meter")>>, <<WArg(k, X)>>)>>)) : k \in {"denominator", "denominator_unit", "length", "format"}}
 MCPoolAt(i) == MCPool
 =============================================================================
